@@ -28,7 +28,7 @@ ASSUMPTIONS = ["a crash is process death immediately before a file-system step; 
                "interleavings are sampled with injected delays between real processes, not enumerated",
                "the network is replaced by an in-memory fake of the GitHub listing in the download scenarios only"]
 MIN_MONITOR_EVALS = {"crash-point": 60, "post-crash-load": 120, "cache-files-byte-identical": 60, "schedule": 10,
-                     "lock-interval-pairs": 50, "lock-timeout": 2, "refresh-skipped": 6,
+                     "lock-interval-pairs": 50, "lock-timeout": 3, "refresh-skipped": 6,
                      "failed-refresh": 10}
 WATCHDOG_S = {"quick": 1200, "thorough": 7200}
 JOBS = {"quick": 16, "thorough": 16}
@@ -449,13 +449,15 @@ def run_timeout_refresh(shard, rec):
     folder = os.path.join(base, "cache")
     os.makedirs(folder)
     # long holder -> the waiter must give up with CacheException and must not enter
-    for attempt in range(2):
+    for attempt in range(3):
+        # the same directory may be spelled with or without a trailing separator by the two processes
+        held_as = folder if attempt == 0 else (folder + os.sep if attempt == 1 else os.path.join(folder, ".", ""))
         r, w = os.pipe()
         pid = os.fork()
         if pid == 0:
             try:
                 os.close(r)
-                with CacheLock(folder, write_time=False):
+                with CacheLock(held_as, write_time=False):
                     os.write(w, b"x")
                     time.sleep(3.0)
             finally:
